@@ -87,3 +87,15 @@ Proof. rewrite write_routing. apply read_routing. Qed.
 (* ---------------------------------------------------------------- the async flag reaches the stager (C09) *)
 Lemma async_flag_reaches_stager : forallb (fun b => b) g_async_flag_hops = true.
 Proof. vm_compute. reflexivity. Qed.
+
+(* ---------------------------------------------------------------- Snapshot.read_object wiring (C18) *)
+Lemma read_object_wiring :
+  g_ro_limit_is_budget = true /\
+  (forall d, g_ro_batches d true = false) /\
+  (forall d, g_ro_batches d false = negb d) /\
+  (forall b cap, 0 < b -> g_ro_exec_budget (Some b) cap = b) /\
+  (forall cap, g_ro_exec_budget None cap = cap).
+Proof.
+  split; [reflexivity|]. split; [intros d; destruct d; reflexivity|]. split; [intros d; destruct d; reflexivity|].
+  split; [|reflexivity]. intros b cap Hb. unfold g_ro_exec_budget. destruct (b =? 0) eqn:E; [lia | reflexivity].
+Qed.
